@@ -57,10 +57,12 @@ def evExt : Ext := fun st recv fn args =>
   | .ref _, "change_fundamental_price", [_] => some (.none, st)
   | _, _, _ => none
 
-/-- the translated program without the market's own `change_fundamental_price` (a call of it is an
+/-- the translated program without the market's own `change_fundamental_price` and price getters (a call of one is an
 extern call here: the events are stated modulo the market's methods) -/
 def evProg : List (String × FunDef) :=
-  PamsGen.Code.prog.filter (fun e => !(e.1 == "Market.change_fundamental_price"))
+  PamsGen.Code.prog.filter (fun e => !(e.1 == "Market.change_fundamental_price" ||
+    e.1 == "Market.get_market_price" || e.1 == "Market.get_fundamental_price" || e.1 == "Market.get_mid_price" ||
+    e.1 == "Market.get_last_executed_price"))
 
 def evEnv : Env := { prog := evProg, globals := globals, ext := evExt }
 
